@@ -37,6 +37,7 @@ UnsupportedStd == {"TON", "TOF", "CTU", "R_TRIG"}
    var       : [n, cls, q, ty, init]     init = <<"-">> | <<"int", digits>> | <<"bool", v>> | <<"enum", value>>
    stmt      : [k = "assign", wrap, tgt, src]      src = <<"var", n>> | <<"int", d>> | <<"enumv", v>> | <<"sum", n, m>> | <<"fcall", f, n>>
                                                           | <<"field", n, elem>>  (n.elem)  | <<"index", arr, n>>  (arr[n])
+                                                          | <<"nested", n, m>>  ((n + (m * 2)) - 1)  | <<"neg", n>>  (- n)
                [k = "call", wrap, inst, named : Seq(<<formal, actual>>), pos : Seq(actual), outs : Seq(<<formal, target>>)]
                wrap = <<"-">> or <<kind, name used in the control expression>>, kind in if elsif else case for while repeat
    pou       : [n, k = "fb" | "prog" | "func", vars, body]
@@ -128,7 +129,8 @@ AllEnumValues(u) == UNION {Range(t.vals) : t \in {x \in Range(u.types) : x.k = "
 
 \* names a statement uses as variables (roles), and the function / instance names it refers to
 SrcVars(src) == CASE src[1] = "var" -> {src[2]} [] src[1] = "sum" -> {src[2], src[3]} [] src[1] = "fcall" -> {src[3]}
-                  [] src[1] = "field" -> {src[2]} [] src[1] = "index" -> {src[2], src[3]} [] OTHER -> {}
+                  [] src[1] = "field" -> {src[2]} [] src[1] = "index" -> {src[2], src[3]}
+                  [] src[1] = "nested" -> {src[2], src[3]} [] src[1] = "neg" -> {src[2]} [] OTHER -> {}
 \* FOR loops also use a variable in their FROM, TO and BY expressions: <<"forfrom" | "forto" | "forby", that variable, the control variable>>
 ForParts == {"forfrom", "forto", "forby"}
 WrapVars(w) == IF w[1] \in {"-", "else"} THEN {} ELSE IF w[1] \in ForParts THEN {w[2], w[3]} ELSE {w[2]}
@@ -265,9 +267,23 @@ GrowSfc == \E i \in PouIdx(unit) : unit.pous[i].k \in {"fb", "prog"} /\ unit.pou
 \* a structure element and an array element as the source of an assignment (CALLER has p : PT and arr : ARR)
 GrowFieldIndex == \E src \in {<<"field", "p", "x">>, <<"index", "arr", "b">>} :
              Edit(<<"grow:" \o src[1]>>, AddStmtTo(unit, 2, A(NoWrap, "a", src)))
+\* variables deep inside an expression: in nested parentheses, under a unary minus
+GrowExpr == \E src \in {<<"nested", "a", "b">>, <<"neg", "b">>} :
+             Edit(<<"grow:" \o src[1]>>, AddStmtTo(unit, 2, A(NoWrap, "a", src)))
 GrowEnumValue == "TOP" \notin Range(unit.types[1].vals) /\ Edit(<<"grow:enumvalue">>, [unit EXCEPT !.types[1].vals = Append(@, "TOP")])
 GrowStructElem == (\A i \in 1..Len(unit.types[3].elems) : unit.types[3].elems[i].n # "z") /\ Edit(<<"grow:structelem">>, [unit EXCEPT !.types[3].elems = Append(@, [n |-> "z", ty |-> "INT", init |-> NoInit])])
 GrowType == "COLOR" \notin TypeNames(unit) /\ Edit(<<"grow:type">>, [unit EXCEPT !.types = Append(@, [n |-> "COLOR", k |-> "enum", vals |-> <<"RED", "GREEN">>, def |-> "RED", qual |-> {2}])])
+\* uniqueness is per declaration: a second structure may use the element names of the first, a second enumeration a value
+\* of the first
+GrowStruct2 == "QT" \notin TypeNames(unit) /\
+               Edit(<<"grow:struct2">>, [unit EXCEPT !.types = Append(@, [n |-> "QT", k |-> "struct",
+                      elems |-> <<[n |-> "x", ty |-> "BOOL", init |-> NoInit], [n |-> "y", ty |-> "INT", init |-> NoInit]>>])])
+GrowEnumShared == "SHADE" \notin TypeNames(unit) /\
+               Edit(<<"grow:enumshared">>, [unit EXCEPT !.types = Append(@, [n |-> "SHADE", k |-> "enum", vals |-> <<"DARK", "MID">>, def |-> "DARK", qual |-> {}])])
+\* an alias of an alias (two levels below the enumeration) with a variable of that type
+GrowAlias2 == "LEVEL3" \notin TypeNames(unit) /\ "nl3" \notin VarNames(unit.pous[2]) /\
+               Edit(<<"grow:alias2">>, AddVarTo([unit EXCEPT !.types = Append(@, [n |-> "LEVEL3", k |-> "alias", base |-> "LEVEL2", def |-> "HIGH"])],
+                                                2, V("nl3", "VAR", "-", "LEVEL3", <<"enum", "LOW">>)))
 GrowTask == "T2" \notin Range(unit.config.tasks) /\ Edit(<<"grow:task">>, [unit EXCEPT !.config.tasks = Append(@, "T2"),
                                                !.config.progs = Append(@, [n |-> "I3", task |-> "T2", ty |-> "MAIN"])])
 \* a non-formal invocation supplies one actual per input of the callee
@@ -296,7 +312,10 @@ GrowPou == (\A p \in Range(unit.pous) : p.n # "EXTRA") /\ Edit(<<"grow:pou">>, [
 PlantDupStructElem == \E n \in {1, 2} :
                         Edit(<<"plant:StructElemUnique", "PT", n>>,
                              [unit EXCEPT !.types[3].elems = @ \o [i \in 1..n |-> [n |-> "x", ty |-> "BOOL", init |-> NoInit]]])
-PlantBadSubrange == \E b \in {<<10, 1>>, <<5, 5>>} : Edit(<<"plant:SubrangeOrdered", "RNG", b[1], b[2]>>, [unit EXCEPT !.types[4].lo = b[1], !.types[4].hi = b[2]])
+\* bounds with signs: the order is that of the integers, not of the magnitudes
+GrowSignedSubrange == \E b \in {<<-5, -1>>, <<-10, 10>>, <<-1, 0>>} : unit.types[4].lo = 1 /\
+                        Edit(<<"grow:signedsubrange", b[1], b[2]>>, [unit EXCEPT !.types[4].lo = b[1], !.types[4].hi = b[2]])
+PlantBadSubrange == \E b \in {<<10, 1>>, <<5, 5>>, <<-1, -5>>, <<5, -5>>, <<0, 0>>, <<-3, -3>>} : Edit(<<"plant:SubrangeOrdered", "RNG", b[1], b[2]>>, [unit EXCEPT !.types[4].lo = b[1], !.types[4].hi = b[2]])
 \* a value listed twice - both spelled alike, or one of them with the type prefix
 PlantDupEnumValue == \E v \in {"LOW", "HIGH"}, q \in {"plain", "second-qualified", "first-qualified", "twice"} :
                        LET n == Len(unit.types[1].vals) + 1
@@ -326,7 +345,7 @@ PlantUndeclaredVar ==
     /\ j <= Len(unit.pous[i].body)
     /\ LET s == unit.pous[i].body[j]
        IN  /\ CASE role = "tgt"  -> s.k = "assign"
-                [] role = "src"  -> s.k = "assign" /\ s.src[1] \in {"var", "sum", "fcall", "field", "index"}
+                [] role = "src"  -> s.k = "assign" /\ s.src[1] \in {"var", "sum", "fcall", "field", "index", "nested", "neg"}
                 [] role = "wrap" -> s.wrap[1] \notin {"-", "else"}
                 [] role = "arg"  -> s.k = "call" /\ s.named # <<>>
                 [] role = "out"  -> s.k = "call" /\ s.outs # <<>>
@@ -336,7 +355,9 @@ PlantUndeclaredVar ==
                      CASE role = "tgt"  -> [s EXCEPT !.tgt = zz]
                        [] role = "src"  -> [s EXCEPT !.src = IF s.src[1] = "var" THEN <<"var", zz>> ELSE IF s.src[1] = "sum" THEN <<"sum", s.src[2], zz>>
                                                               ELSE IF s.src[1] = "field" THEN <<"field", zz, s.src[3]>>
-                                                              ELSE IF s.src[1] = "index" THEN <<"index", s.src[2], zz>> ELSE <<"fcall", s.src[2], zz>>]
+                                                              ELSE IF s.src[1] = "index" THEN <<"index", s.src[2], zz>>
+                                                              ELSE IF s.src[1] = "nested" THEN <<"nested", s.src[2], zz>>
+                                                              ELSE IF s.src[1] = "neg" THEN <<"neg", zz>> ELSE <<"fcall", s.src[2], zz>>]
                        [] role = "wrap" -> [s EXCEPT !.wrap[2] = zz]
                        [] role = "arg"  -> [s EXCEPT !.named[1] = <<s.named[1][1], zz>>]
                        [] role = "out"  -> [s EXCEPT !.outs[1] = <<s.outs[1][1], zz>>]
@@ -346,7 +367,7 @@ PlantUndeclaredInTransition == \E n \in unit.sfc : \E zz \in {"zz"} :
     Edit(<<"plant:VarDeclared", n, 0, "transition", zz>>, [unit EXCEPT !.tcond[n] = zz])
 \* an initial value that is not a value of the enumeration: in every variable class of every POU, in a structure element, in an alias
 PlantBadEnumInit ==
-  \/ \E i \in PouIdx(unit), cls \in {"VAR", "VAR_INPUT", "VAR_OUTPUT"}, ty \in {"LEVEL", "LEVEL2"} :
+  \/ \E i \in PouIdx(unit), cls \in {"VAR", "VAR_INPUT", "VAR_OUTPUT"}, ty \in {"LEVEL", "LEVEL2", "LEVEL3"} \cap (TypeNames(unit) \cup {"LEVEL"}) :
         /\ ~(unit.pous[i].k = "func" /\ cls = "VAR_OUTPUT") /\ "ne" \notin VarNames(unit.pous[i]) /\ (cls = "VAR_INPUT" => CanAddInput(i))
         /\ Edit(<<"plant:EnumValueDeclared", unit.pous[i].n, cls, ty>>, AddVarTo(unit, i, V("ne", cls, "-", ty, <<"enum", "NOPE">>)))
   \/ Edit(<<"plant:EnumValueDeclared", "PT", "element">>, [unit EXCEPT !.types[3].elems[3].init = <<"enum", "NOPE">>])
@@ -377,14 +398,16 @@ CallSites(u) == {<<i, j>> \in PouIdx(u) \X (1..4) : j <= Len(u.pous[i].body) /\ 
 PlantMix == \E c \in CallSites(unit) : LET s == unit.pous[c[1]].body[c[2]] IN s.named # <<>> /\
               Edit(<<"plant:InvocationNoMix", unit.pous[c[1]].n, c[2]>>, SetStmt(unit, c[1], c[2], [s EXCEPT !.pos = <<s.named[1][2]>>]))
 PlantUnknownInput == \E c \in CallSites(unit) : LET s == unit.pous[c[1]].body[c[2]] IN s.pos = <<>> /\
-              Edit(<<"plant:InputsDeclared", unit.pous[c[1]].n, c[2]>>, SetStmt(unit, c[1], c[2], [s EXCEPT !.named = Append(@, <<"bogus", "TRUE">>)]))
+              \E f \in {"bogus"} \cup ((VarNames(Callee(unit, unit.pous[c[1]], s)) \ NamedFormals(Callee(unit, unit.pous[c[1]], s))) \cap {"tmp", "out1"}) :
+              Edit(<<"plant:InputsDeclared", unit.pous[c[1]].n, c[2], f>>, SetStmt(unit, c[1], c[2], [s EXCEPT !.named = Append(@, <<f, "TRUE">>)]))
 PlantArity == \E c \in CallSites(unit), n \in {1, 3} : LET s == unit.pous[c[1]].body[c[2]] IN s.named = <<>> /\ s.pos # <<>> /\
               Edit(<<"plant:PositionalArity", unit.pous[c[1]].n, c[2], n>>,
                    SetStmt(unit, c[1], c[2], [s EXCEPT !.pos = IF n = 1 THEN <<s.pos[1]>> ELSE s.pos \o <<s.pos[1]>>]))
 \* an output formal the callee does not have: a name declared nowhere, or - if the callee has one - the name of an
 \* in-out variable (which is bound with :=, not with =>)
 PlantUnknownOutput == \E c \in CallSites(unit) : LET s == unit.pous[c[1]].body[c[2]] IN
-              \E f \in {"nothere"} \cup InOuts(Callee(unit, unit.pous[c[1]], s)) :
+              \E f \in {"nothere"} \cup InOuts(Callee(unit, unit.pous[c[1]], s))
+                         \cup ((VarNames(Callee(unit, unit.pous[c[1]], s)) \ Outputs(Callee(unit, unit.pous[c[1]], s))) \cap {"in1", "tmp"}) :
               Edit(<<"plant:OutputsDeclared", unit.pous[c[1]].n, c[2], f>>,
                    SetStmt(unit, c[1], c[2], [s EXCEPT !.outs = Append(@, <<f, IntVar(unit.pous[c[1]]).n>>)]))
 \* a task that is defined nowhere ("TX"), or - scoping - one that IS defined, but in the resource of the other configuration
@@ -404,13 +427,13 @@ PlantExternNotConst ==
   \/ \E i \in {1, 2} : Edit(<<"plant:ExternOfConstIsConst", unit.pous[i].n, "new">>, AddVarTo(unit, i, V("gk", "VAR_EXTERNAL", "-", "INT", NoInit)))
 
 Grow == (("grow" \in EditKinds) /\ (GrowVar \/ GrowConst \/ GrowStmt \/ GrowWrap \/ GrowEnumValue \/ GrowStructElem \/ GrowType \/ GrowTask
-                                     \/ GrowPositionalCall \/ GrowEmptyCall \/ GrowInOut \/ GrowGlobal \/ GrowPou \/ GrowConfig2 \/ GrowStdNamedType \/ GrowQualifyEnumValue \/ GrowQualifyUses \/ GrowQualifyUsesAlias \/ GrowSfc \/ GrowFieldIndex))
+                                     \/ GrowPositionalCall \/ GrowEmptyCall \/ GrowInOut \/ GrowGlobal \/ GrowPou \/ GrowConfig2 \/ GrowStdNamedType \/ GrowQualifyEnumValue \/ GrowQualifyUses \/ GrowQualifyUsesAlias \/ GrowSfc \/ GrowFieldIndex \/ GrowSignedSubrange \/ GrowStruct2 \/ GrowEnumShared \/ GrowAlias2 \/ GrowExpr))
 Plant == (("plant" \in EditKinds) /\ (PlantUndeclaredInTransition \/ PlantDupStructElem \/ PlantBadSubrange \/ PlantDupEnumValue \/ PlantUndeclaredVar \/ PlantBadEnumInit
                                        \/ PlantBadEnumStmt \/ PlantUnknownType \/ PlantStdlib \/ PlantUnknownInstance \/ PlantMix
                                        \/ PlantUnknownInput \/ PlantArity \/ PlantUnknownOutput \/ PlantUndefinedTask \/ PlantConstNoInit
                                        \/ PlantConstFB \/ PlantExternNotConst))
 
-IsGrow(e) == e[1] \in {"grow:sfc", "grow:field", "grow:index", "grow:qualify", "grow:qualifyuse", "grow:qualifyusealias", "grow:config2", "grow:stdnamedtype", "grow:inout", "grow:var", "grow:const", "grow:stmt", "grow:wrap", "grow:enumvalue", "grow:structelem", "grow:type", "grow:task",
+IsGrow(e) == e[1] \in {"grow:signedsubrange", "grow:struct2", "grow:enumshared", "grow:alias2", "grow:nested", "grow:neg", "grow:sfc", "grow:field", "grow:index", "grow:qualify", "grow:qualifyuse", "grow:qualifyusealias", "grow:config2", "grow:stdnamedtype", "grow:inout", "grow:var", "grow:const", "grow:stmt", "grow:wrap", "grow:enumvalue", "grow:structelem", "grow:type", "grow:task",
                        "grow:positionalcall", "grow:emptycall", "grow:global", "grow:pou"}
 
 Init == unit = Base /\ edits = <<>>
@@ -451,7 +474,7 @@ LabelTargets(e) ==
     [] e[1] = "plant:StdlibSupported"       -> {e[3]}
     [] e[1] = "plant:FBInstanceDeclared"    -> {e[4], "<call>"}
     [] e[1] = "plant:InvocationNoMix"       -> {"<call>"}
-    [] e[1] = "plant:InputsDeclared"        -> {"<call>", "bogus"}
+    [] e[1] = "plant:InputsDeclared"        -> {"<call>", e[4]}
     [] e[1] = "plant:PositionalArity"       -> {"<call>"}
     [] e[1] = "plant:OutputsDeclared"       -> {"<call>", e[4]}
     [] e[1] = "plant:TaskDefined"           -> {e[3], e[2]}
